@@ -10,3 +10,4 @@ INVARIANT OneDecision
 INVARIANT NothingForExit
 INVARIANT ViaExact
 INVARIANT Answered
+INVARIANT ViaNeverRefused
